@@ -455,8 +455,14 @@ class VSocketModule(object):
 
 
 class VSelectModule(object):
+    POLLIN, POLLPRI, POLLOUT, POLLERR, POLLHUP, POLLNVAL = 1, 2, 4, 8, 16, 32
+    error = OSError
+
     def __init__(self, net):
         self.net = net
+
+    def poll(self):
+        return VPoll(self)
 
     def _resolve(self, obj):
         if isinstance(obj, VFile):
@@ -499,6 +505,68 @@ class VSelectModule(object):
             t.stutter += 1
         s.log('select', result='timeout', timeout=timeout)
         return [], [], []
+
+
+class VPoll(object):
+    """select.poll() over virtual files, with Linux's event bits: data or the peer's FIN = POLLIN; a connection the peer has
+    reset = POLLIN | POLLERR | POLLHUP; a closed descriptor = POLLNVAL. (Round 11, C15k: code that switches from select()
+    to poll() meets the error bits select() never showed it.)"""
+
+    def __init__(self, mod):
+        self.mod = mod
+        self.reg = {}
+
+    def register(self, obj, mask=1 | 2 | 4):
+        f = self.mod._resolve(obj)
+        self.reg[id(f)] = (obj, f, mask)
+
+    modify = register
+
+    def unregister(self, obj):
+        self.reg.pop(id(self.mod._resolve(obj)), None)
+
+    def _events(self):
+        out = []
+        for obj, f, mask in self.reg.values():
+            ev = 0
+            if f.closed:
+                ev = VSelectModule.POLLNVAL
+            else:
+                sess = f.sock.session
+                if f._readable():
+                    ev |= VSelectModule.POLLIN
+                if sess is not None and sess.srv_reset and not f.sock.shut_rd:
+                    ev |= VSelectModule.POLLIN | VSelectModule.POLLERR | VSelectModule.POLLHUP
+                ev &= mask | VSelectModule.POLLERR | VSelectModule.POLLHUP | VSelectModule.POLLNVAL
+            if ev:
+                out.append((obj if isinstance(obj, int) else f.fileno(), ev))
+        return out
+
+    def poll(self, timeout=None):
+        s = self.mod.net.sched
+        if s.dead:
+            raise Poison()
+        t = s.me()
+        if t is not None:
+            t.waiting_select = True
+        try:
+            if timeout is None or timeout < 0:
+                s.yield_point(blocked_on=lambda: bool(self._events()))
+            else:
+                s.yield_point()
+        finally:
+            if t is not None:
+                t.waiting_select = False
+        evs = self._events()
+        if evs:
+            s.log('poll', result='ready', events=[e for _, e in evs])
+            return evs
+        if timeout:
+            s.clock += timeout / 1000.0
+        if t is not None:
+            t.stutter += 1
+        s.log('poll', result='timeout', timeout=timeout)
+        return []
 
 
 class VTimeit(object):
